@@ -648,7 +648,7 @@ def builtin_method(I, ctx, o, name, via_super=False):
         if name == "index":
             return B_(lambda ctx, x: list_index(I, ctx, o.items, x))
         if name == "count":
-            return B_(lambda ctx, x: sum(1 for y in o.items if B.eq_formula(I, ctx, y, x) is True))
+            return B_(lambda ctx, x: list_count(I, ctx, o.items, x))
         if name == "__getitem__":
             return B_(lambda ctx, k: B.getitem(I, ctx, TupleVal(o.items), k))
         if name == "__len__":
@@ -750,6 +750,23 @@ def list_index(I, ctx, items, x):
     raise I.raise_exc("ValueError")
 
 
+def list_count(I, ctx, items, x):
+    """list.count / tuple.count: the number of items equal to x; an item whose equality with x is not decided
+    syntactically contributes If(equal, 1, 0)."""
+    import z3
+    n = 0
+    terms = []
+    for y in items:
+        f = B.eq_formula(I, ctx, y, x)
+        if f is True:
+            n += 1
+        elif f is not False:
+            terms.append(z3.If(B._zb(f), z3.IntVal(1), z3.IntVal(0)))
+    if not terms:
+        return n
+    return B.wrap(smt.simp(z3.IntVal(n) + z3.Sum(terms) if len(terms) > 1 else z3.IntVal(n) + terms[0]))
+
+
 def list_method(I, ctx, o, name):
     def B_(fn):
         return Builtin("list." + name, fn)
@@ -779,7 +796,7 @@ def list_method(I, ctx, o, name):
             del o.items[i]
         return B_(rm)
     if name == "count":
-        return B_(lambda ctx, x: sum(1 for y in o.items if B.eq_formula(I, ctx, y, x) is True))
+        return B_(lambda ctx, x: list_count(I, ctx, o.items, x))
     if name == "reverse":
         return B_(lambda ctx: o.items.reverse())
     if name == "clear":
@@ -840,6 +857,21 @@ def symlist_method(I, ctx, o, name):
             ctx.assume(z3.ForAll([q], z3.Implies(z3.And(q >= 0, q < i), z3.Not(body))))
             return B.wrap(i)
         return B_(index)
+    if name == "count":
+        def count(ctx, x):
+            # partial specification of list.count on a list of symbolic length: within 0..len, positive exactly when
+            # some element equals x, equal to len exactly when every element does
+            import z3
+            seq = o.seq
+            n = B._z(seq.length)
+            q = z3.Int(ctx.fresh_name("cnt_q"))
+            body = B._zb(B.eq_formula(I, ctx, seq.elem(q), x))
+            c = ctx.fresh_int("count")
+            ctx.assume(z3.And(c >= 0, c <= n))
+            ctx.assume((c > 0) == z3.Exists([q], z3.And(q >= 0, q < n, body)))
+            ctx.assume((c == n) == z3.ForAll([q], z3.Implies(z3.And(q >= 0, q < n), body)))
+            return B.wrap(c)
+        return B_(count)
     return None
 
 
